@@ -232,7 +232,7 @@ def attrStep (tx : Bytes) (d : Decoded) (typ : Nat) (value : Bytes) : Decoded :=
     match parseXor value tx with | some a => { d with peer := some a } | none => d
   else if typ = stunDecAttrErrorCode then
     match value with
-    | _ :: _ :: c :: n :: _ => { d with errorCode := some (c.toNat * 100 + n.toNat) }
+    | _ :: _ :: c :: n :: _ => { d with errorCode := some (c.toNat % 8 * 100 + n.toNat) }   -- `(value[2] & 0x07) * 100 + value[3]`
     | _ => d
   else if typ = stunDecAttrRealm then
     if validUtf8 value then { d with realm := some value } else d
